@@ -39,7 +39,15 @@ package arvados
 // A nil error means: the last line delivered by the scanner was the empty
 // terminator line, no earlier line was empty, every other line had exactly two
 // fields with a parsable mtime, and one entry was produced per non-empty line.
-//@ func KeepService.index property C06 safety -bounds
+//@ func KeepService.index property C05,C06 safety -bounds
+//@   # the reported time of a replica (what keep-balance compares with the
+//@   # signature-TTL horizon): a value below 1e12 is a timestamp in seconds from
+//@   # an old keepstore (1e12 ns is 1970-01-01 00:16:40; 1e12 s is the year
+//@   # 33658) and is converted to nanoseconds, anything else is taken as it is
+//@   ghost raw int64 = 0
+//@   at assign mtime#1: set raw = mtime
+//@   at assign .Mtime#1: assert (raw < 1000000000000 ==> $v == raw * 1000000000) && (raw >= 1000000000000 ==> $v == raw)
+//@   at assign .SizedDigest#1: assert string($v) == fields[0]
 //@   ghost lastEmpty bool = false
 //@   ghost nl int = 0
 //@   at assign line#1: set lastEmpty = (line == "")
@@ -271,6 +279,18 @@ package arvados
 // SignManifest's per-token function: a block locator token is re-signed after
 // its old permission hint was stripped; every other token is returned unchanged.
 //@ func SignManifest$1 property C07
+//@   # ... and what is returned for a block token is that fresh signature of that
+//@   # very token (its own hints, whatever was returned for other tokens)
+//@   only calls: Regexp.MatchString Regexp.ReplaceAllString SignLocator
+//@   ghost stripped string = ""
+//@   ghost sl string = ""
+//@   ghost done bool = false
+//@   calls Regexp.ReplaceAllString#1: requires $recv == mPermHintRe && $0 == tok && $1 == ""
+//@   calls Regexp.ReplaceAllString#1: set stripped = $r
+//@   calls SignLocator#1: requires $0 == stripped
+//@   calls SignLocator#1: set sl = $r
+//@   calls SignLocator#1: set done = true
+//@   ensures matches(tok, `(?s)^[0-9a-f]{32}.*`) ==> done && result == sl
 //@   calls SignLocator#1: requires matches(tok, `(?s)^[0-9a-f]{32}.*`) && $1 == apiToken && $2 == expiry && $3 == ttl && $4 == permissionSecret
 //@   ensures !matches(tok, `(?s)^[0-9a-f]{32}.*`) ==> result == tok
 
